@@ -326,6 +326,7 @@ def check_purity(ctx, prog):
     F = prog.fn("parse_options")
     I = new_interp(prog)
     I.MAX_STATES = 30000
+    I.widen = False
     p = {x["name"]: ("v", F.gdid(x["did"])) for x in F.params}
     O = ("g", "options_under_test")
     st = State()
